@@ -24,11 +24,11 @@ ASSUMPTIONS = ['reference semantics = DESIGN.md Appendix A', 'identity of dict o
 def plan(tier):
     if tier == 'thorough':
         return {'shards': 16, 'timeout_s': 1500}
-    return {'shards': 4, 'timeout_s': 280}
+    return {'shards': 8, 'timeout_s': 280}
 
 
 def n_cases(tier):
-    return 3500 if tier == 'thorough' else 400
+    return 3500 if tier == 'thorough' else 600
 
 
 def one_case(rng, tier):
